@@ -265,7 +265,7 @@ pub fn gen_call(f: &dyn vrl::compiler::Function, rng: &mut Rng) -> Call {
         let kind = if wrong || allowed.is_empty() { *rng.pick(&[K_BYTES, K_INTEGER, K_FLOAT, K_BOOLEAN, K_OBJECT, K_ARRAY, K_NULL]) } else { *rng.pick(&allowed) };
         // regex values cannot live in an event: always literal
         let literal = kind == K_REGEX || rng.chance(3, 5);
-        let text = if (kind == K_ARRAY || kind == K_OBJECT) && rng.chance(1, 8) {
+        let text = if (kind == K_ARRAY || kind == K_OBJECT) && rng.chance(1, 4) {
             // a collection whose ELEMENT kind is known but whose length / keys are not
             // (`split` gives an array of strings, `parse_key_value` an object of strings)
             let key = format!("p{i}");
